@@ -372,6 +372,23 @@ def alloc_items(tier):
                         if order:
                             sp2["order"] = order
                         out.append((sp2, {"rule": rule, "max_time": F.seq_bound(sp) + 8}))
+    # a candidate in the middle of the worker order is refused (not on the fixed-ID list / solo while the task already has somebody):
+    # the candidates behind him must still be offered to the higher-priority task
+    for wv in ((3, 2, 1), (1, 2, 3), (2, 2, 2)):
+        fl = {"tasks": [{"name": F.tname(i), "work": float(w)} for i, w in enumerate(wv)], "links": []}
+        for var in ("fix02", "fix-all-but-middle-on-each", "solo-middle", "solo-first", "solo-last"):
+            sp = F.with_teams(fl, "POOL3")
+            sp = dict(sp, tasks=[dict(t) for t in sp["tasks"]], teams=[dict(tm, workers=[dict(w) for w in tm["workers"]]) for tm in sp["teams"]])
+            if var == "fix02":
+                sp["tasks"][0]["fixw"] = ["W0", "W2"]
+                sp["tasks"][2]["fixw"] = ["W0", "W2"]
+            elif var == "fix-all-but-middle-on-each":
+                for t in sp["tasks"][:2]:
+                    t["fixw"] = ["W2", "W0"]
+            else:
+                sp["teams"][0]["workers"][{"solo-middle": 1, "solo-first": 0, "solo-last": 2}[var]]["solo"] = True
+            for rule in ("SPT", "LPT", "TSLACK", "FIFO"):
+                out.append((sp, {"rule": rule, "max_time": F.seq_bound(sp) + 8}))
     return out
 
 
